@@ -216,7 +216,7 @@ def ref_fst_from_case(case, scheme="str"):
     q, trans, st, fi = case
     nm = GT.names(scheme, q)
     return FST(nm, [nm[i] for i in range(q) if st >> i & 1], [nm[i] for i in range(q) if fi >> i & 1],
-               [(nm[p], GT.IN[a], nm[r], GT.OUTS[o]) for p, a, r, o in trans])
+               [(nm[p], GT.IN[a], nm[r], GT.outs(scheme)[o]) for p, a, r, o in trans])
 
 
 def build_fst(case, scheme="str"):
@@ -226,7 +226,7 @@ def build_fst(case, scheme="str"):
     nm = GT.names(scheme, q)
     f = FST()
     for p, a, r, o in trans:
-        f.add_transition(nm[p], "epsilon" if a == 0 else GT.IN[a], nm[r], list(GT.OUTS[o]))
+        f.add_transition(nm[p], "epsilon" if a == 0 else GT.IN[a], nm[r], list(GT.outs(scheme)[o]))
     for i in range(q):
         if st >> i & 1:
             f.add_start_state(nm[i])
